@@ -545,6 +545,13 @@ where
                         if self.options.transform_on
                             && (attr_name == "on" || attr_name == "nativeOn")
                         {
+                            if !props.is_empty() && self.options.merge_props {
+                                // keep source order: earlier attributes are merged first
+                                merge_args.push(Expr::Object(ObjectLit {
+                                    span: DUMMY_SP,
+                                    props: util::dedupe_props(mem::take(&mut props)),
+                                }));
+                            }
                             merge_args.push(Expr::Call(CallExpr {
                                 span: DUMMY_SP,
                                 callee: Callee::Expr(Box::new(Expr::Ident(
